@@ -279,7 +279,10 @@ CGraph::ItemsGroup CGraph::GetAllLoopsItems() const {
   std::vector<bool> marked(size(graph), false);
   std::vector<VertexIndex> toVisit{};
   std::vector<VertexIndex> component{};
-  for (const auto index : InternalOrder()) {
+  // Kosaraju: visit in decreasing DFS finish time and collect along reversed edges
+  const auto order = InternalOrder();
+  for (auto it = rbegin(order); it != rend(order); ++it) {
+    const auto index = *it;
     if (marked[index]) {
       continue;
     }
@@ -290,7 +293,7 @@ CGraph::ItemsGroup CGraph::GetAllLoopsItems() const {
       const auto item = toVisit.back();
       toVisit.pop_back();
       component.push_back(item);
-      for (const auto child : graph[item].outputs) {
+      for (const auto child : graph[item].inputs) {
         if (!marked[child]) {
           toVisit.push_back(child);
           marked[child] = true;
